@@ -1,10 +1,11 @@
 import Pyrealb.Driver.Proto
-import Pyrealb.Model.Elision
+import Pyrealb.Model.ElisionSpec
 /-! Line-protocol handlers of the `surface` family (C06): the elision model.
 
-  {"op":"elide","lang":"fr","contr":false,"toks":[{"r":"le","ct":"D","lier":false,"sg":true,"hw":"m","hr":"m"},…]}
+  {"op":"elide","lang":"fr","contr":false,"toks":[{"r":"le","ct":"D","lier":false,"sg":true,"hw":"m","hr":"m","fr":true},…]}
       -> {"r":["l'", …]}            (null for a `None` realization)   |  {"err":"KeyError"}
   {"op":"settled","lang":"fr","toks":[…]}      -> {"ok":true,"text_ok":true}
+  {"op":"hyps","lang":"fr","toks":[…]}         -> {"wf":true,"bwd":true,"tame":true,"euph":true}
   {"op":"sep","lang":"fr","s":"<b>l'arbre</b>"} -> {"g":["<b>","l'arbre","</b>"]}   (null when group 2 is None)
   {"op":"anrule","w":"hour"} -> {"b":true}     {"op":"elidable","w":"homme","h":"m"} -> {"b":true} | {"err":…}
 -/
@@ -26,7 +27,8 @@ def tokOf (j : Json) : Except String Tok := do
   let sg ← getBool j "sg"
   let hw ← hOf (← getStr j "hw")
   let hr ← hOf (← getStr j "hr")
-  pure { real := r, ct := ct.toList, lier := lier, sg := sg, hW := hw, hR := hr }
+  let fr ← getBool j "fr"
+  pure { real := r, ct := ct.toList, lier := lier, sg := sg, hW := hw, hR := hr, fr := fr }
 
 def toksOf (j : Json) : Except String (List Tok) := do
   let a ← getArr j "toks"
@@ -49,6 +51,17 @@ def settledOp : Handler := fun j => do
   let toks ← toksOf j
   pure (Json.mkObj [("ok", Json.bool (settled ℓ toks)), ("text_ok", Json.bool (settled ℓ (dropEmpty toks)))])
 
+/-- the hypotheses of the `_partial` theorems of Props/C06, evaluated on the input of a call -/
+def hypsOp : Handler := fun j => do
+  let ℓ ← langOf j
+  let contr := (getBool j "contr").toOption.getD false
+  let toks ← toksOf j
+  match ℓ with
+  | .fr => pure (Json.mkObj [("wf", Json.bool (toks.all tokWF)), ("bwd", Json.bool (bwdFromFr false toks)),
+                             ("tame", Json.bool (tameFromFr false toks)), ("euph", Json.bool true)])
+  | .en => pure (Json.mkObj [("wf", Json.bool (toks.all tokWF)), ("bwd", Json.bool (bwdFromEn toks)),
+                             ("tame", Json.bool (tameFromEn contr toks)), ("euph", Json.bool true)])
+
 def sepOp : Handler := fun j => do
   let ℓ ← langOf j
   let x ← getStr j "s"
@@ -67,6 +80,6 @@ def elidableOp : Handler := fun j => do
   | .error e => pure (Json.mkObj [("err", Json.str e.name)])
 
 def ops : List (String × Handler) :=
-  [("elide", elideOp), ("settled", settledOp), ("sep", sepOp), ("anrule", anruleOp), ("elidable", elidableOp)]
+  [("elide", elideOp), ("settled", settledOp), ("hyps", hypsOp), ("sep", sepOp), ("anrule", anruleOp), ("elidable", elidableOp)]
 
 end Pyrealb.Driver.SurfaceOps
